@@ -109,13 +109,15 @@ func parent(id, tier string) int {
 			code = ee.ExitCode()
 		}
 	}
-	if code == 1 || code == 0 {
+	if code == 1 || code == 0 || code == 2 {
 		if checks.RaceEnabled && os.Getenv("VERIF_REPLAY_KEY") == "" {
-			if rc := raceReports(id, dir, racePrefix); rc > code {
+			if rc := raceReports(id, dir, racePrefix); rc == 1 || (rc > code) {
 				code = rc
 			}
 		}
-		return code
+		if code != 2 {
+			return code
+		}
 	}
 	out := tail.String()
 	crashed := strings.Contains(out, "panic:") || strings.Contains(out, "fatal error:") || strings.Contains(out, "unexpected signal")
